@@ -568,6 +568,21 @@ def runLine (st : Session) (line : String) : Session × String := Id.run do
     -- the implementation must follow one of them consistently (checked by the runner)
     let ws := [some [wd], some [wd], some [wd], some [wd]]
     return ({ st with worlds := ws, clockPaused := false, clockSpeed := 1.0 }, showVariants ws)
+  | "setcomp" =>
+    let (w, ek) := splitEnt w
+    let ws := onEnt st.worlds ek fun wd => { wd with compP := [.num (fb w[1]!), .num (fb w[2]!)] }
+    return ({ st with worlds := ws }, showVariants ws)
+  | "reinsel" =>
+    let (w, ek) := splitEnt w
+    let getP (tok : String) : Option (Merged F) :=
+      if tok == "-" then none else ((st.slots.get? tok.toNat!).bind asMerged).map (·.2)
+    let tls := ((w[1]!.splitOn ",").zipIdx.filterMap fun (t, i) => (getP t).map fun m => (i, m))
+    -- a freshly inserted selector has not been applied yet (no previous key)
+    let ws := onEnt st.worlds ek fun wd =>
+      match wd.sel with
+      | some _ => { wd with sel := some { timelines := tls, key := w[2]!.toNat!, prevKey := none } }
+      | none => wd
+    return ({ st with worlds := ws }, showVariants ws)
   | "tpause" => return ({ st with clockPaused := w[1]! == "1" }, showVariants st.worlds)
   | "tspeed" => return ({ st with clockSpeed := Float.ofBits (UInt64.ofNat w[1]!.toNat!) }, showVariants st.worlds)
   | "bent" =>
